@@ -16,7 +16,8 @@ MUTANTS = [
     dict(id="c17-tetra-pairs", props=["C17"], expect="fire", file=G, old="            for j in range(num_nearest - 1):\n                for k in range(j + 1, num_nearest):", new="            for j in range(num_nearest - 1):\n                for k in range(j + 1, num_nearest - 1):", mention="pairs"),
     dict(id="c17-tetra-third", props=["C17"], expect="fire", file=G, old="results[n, i] += (medium1 / medium2 + 1.0 / 3) ** 2", new="results[n, i] += (medium1 / medium2 - 1.0 / 3) ** 2", mention="pair-term"),
     dict(id="c17-tetra-norm", props=["C17"], expect="fire", file=G, old="results = 1.0 - 3.0 / 8 * results / num_nearest", new="results = 1.0 - 3.0 / 8 * results", mention="normalisation"),
-    dict(id="c17-tetra-kth", props=["C17"], expect="fire", file=G, old="nearests = np.argpartition(distance, num_nearest + 1)[: num_nearest + 1]", new="nearests = np.argpartition(distance, num_nearest - 1)[: num_nearest + 1]", mention="four-nearest"),
+    dict(id="c17-G17-pivot-out-of-range", props=["C17"], expect="fire", file=G, old="nearests = np.argpartition(distance, num_nearest)[: num_nearest + 1]", new="nearests = np.argpartition(distance, num_nearest + 1)[: num_nearest + 1]", mention="four-nearest"),
+    dict(id="c17-tetra-kth", props=["C17"], expect="fire", file=G, old="nearests = np.argpartition(distance, num_nearest)[: num_nearest + 1]", new="nearests = np.argpartition(distance, num_nearest - 1)[: num_nearest + 1]", mention="four-nearest"),
     dict(id="c17-tetra-keepself", props=["C17"], expect="fire", file=G, old="            nearests = [j for j in nearests if j != i]\n", new="            nearests = list(nearests)\n", mention="drop-self"),
     dict(id="c17-nematic-Q", props=["C17"], expect="fire", file=N, old="ndim * mu[x] * mu[y] - kronecker(x, y)) / 2", new="ndim * mu[x] * mu[y] - kronecker(x, y))", mention="Q"),
     dict(id="c17-nematic-scalar", props=["C17"], expect="fire", file=N, old="Qtrace *= ndim / (ndim - 1)", new="Qtrace *= (ndim - 1) / ndim", mention="trace:scalar"),
